@@ -781,8 +781,10 @@ def _settled(case, impl):
         # CPU time of this process (a stalled machine does not count), wall clock only as backstop
         old = signal.signal(signal.SIGALRM, _alarm)
         oldp = signal.signal(signal.SIGPROF, _alarm)
-        signal.setitimer(signal.ITIMER_PROF, CASE_TIMEOUT)
-        signal.setitimer(signal.ITIMER_REAL, 20 * CASE_TIMEOUT)
+        # (four times the per-case budget, in CPU time: on a saturated machine the kernel share of a millisecond
+        # case has been seen to grow past the single budget — a thorough run next to three suite runs)
+        signal.setitimer(signal.ITIMER_PROF, 4 * CASE_TIMEOUT)
+        signal.setitimer(signal.ITIMER_REAL, 40 * CASE_TIMEOUT)
         try:
             _RERUN[key] = run_impl(case)
         except BaseException as e:  # noqa
